@@ -2,15 +2,29 @@
 
 Correspondence (H1, no network, no threads):
   * the real qmi.core.messaging._UdpResponder is constructed on a scripted datagram socket and a
-    recording event loop; every datagram is delivered by calling the callback the responder
-    registered with add_reader (its _handle_read); what it sends / raises is compared with
-    theories/C18/Model.v `run`;
-  * the real unpack_qmi_udp_packet against `unpack`;
+    scripted event loop that treats reader callbacks as asyncio does (an Exception leaving a callback
+    is handed to the loop's exception handler and the loop goes on; SystemExit / KeyboardInterrupt
+    stop the loop).  Datagrams arrive in bursts; the loop calls the registered reader callback while
+    datagrams are queued (level-triggered), so the harness does not care how many datagrams one call
+    handles.  What is sent for each datagram is compared with theories/C18/Model.v `run`;
+  * the real unpack_qmi_udp_packet against `unpack` (accepted or not; fields of accepted packets);
   * the real ping_qmi_contexts + QMI_Context.discover_peer_contexts with socket / selectors /
     time / random (as seen from qmi.core.context) replaced by scripted stand-ins, also end to
     end against 1-4 real responders, against `ping_request` / `collect`;
   * fnmatch.fnmatchcase against `gmatch`; bytes.decode()/str.encode() against utf8_dec/utf8_enc.
 The property oracle below re-states C18 on the implementation's observations without the model.
+
+What is a CLAIM (checked) and what is an OBSERVATION (only counted in the evidence):
+  claims: a request is answered iff both filters match per fnmatchcase, one answer, to the sender, echoing id
+          and timestamp and carrying name/workgroup/pid/port; anything that is not a well-formed request gets no
+          answer; after any sequence the responder is still registered, its socket open, the loop alive and a
+          probe request is answered; discovery reports exactly (as a set) the readable replies to its own request
+          that are not from itself;
+  observations: the exception class used to reject a datagram or a call, whether the rejection happens inside the
+          handler or in the loop's exception handler, log output, the receive buffer size passed to recvfrom
+          (the scripted socket truncates to it like the OS), how many datagrams one wake-up handles, the order of
+          the peers reported, whether the asking socket is closed, the request id the asker draws (read off the
+          request it sends).
 
 SAFETY: the kill-request packet type (tag 0x202) is never generated (guard `_never_kill`), and
 os._exit is replaced while implementation code runs.
@@ -23,13 +37,19 @@ import string
 import struct
 import warnings
 
+import common
 from common import cZ, cN, cbool, clist, cbytes, copt
 
 THEORY = "C18"
 MAGIC = 0x00494D51
 T_REQ, T_KILL, T_RESP, T_START, T_SHUT = 0x201, 0x202, 0x101, 0x102, 0x103
 ENUM_TAGS = {T_REQ, T_KILL, T_RESP, T_START, T_SHUT}
-ADDR = ("10.1.2.3", 40123)
+REAL_PID = os.getpid()
+
+
+def src_addr(idx):
+    """source address of the idx-th datagram of a session (all different: answers must go to the right one)"""
+    return ("10.1.%d.%d" % (2 + idx // 200, 3 + idx % 200), 40000 + idx)
 
 
 # ---------------------------------------------------------------------------------------------
@@ -58,11 +78,20 @@ class _Proxy:
 
 
 class Sock:
+    """Scripted datagram socket.  inq holds (index, data, source address); recvfrom truncates to the buffer size the
+    code passes (as the OS does) and logs which datagram was read; sendto logs what was sent after which read."""
+
     def __init__(self):
-        self.inq, self.sent, self.blocking, self.closed = [], [], None, False
+        self.inq, self.sent, self.closed = [], [], False
+        self.events = []          # ("recv", idx) | ("send", bytes, addr)
+        self.current = None       # index of the datagram read last
+        self.bufsizes = set()
 
     def setblocking(self, b):
-        self.blocking = b
+        pass
+
+    def settimeout(self, t):
+        pass
 
     def fileno(self):
         return 77
@@ -70,13 +99,18 @@ class Sock:
     def getsockname(self):
         return ("0.0.0.0", 35999)
 
-    def recvfrom(self, n):
+    def recvfrom(self, n, *flags):
         if not self.inq:
             raise BlockingIOError()
-        data, addr = self.inq.pop(0)
+        idx, data, addr = self.inq.pop(0)
+        self.current = idx
+        self.bufsizes.add(n)
+        self.events.append(("recv", idx))
         return data[:n], addr
 
-    def sendto(self, data, addr):
+    def sendto(self, data, *rest):
+        addr = rest[-1]
+        self.events.append(("send", bytes(data), addr))
         self.sent.append((bytes(data), addr))
 
     def setsockopt(self, *a):
@@ -90,14 +124,29 @@ class Sock:
 
 
 class Loop:
+    """Scripted event loop: reader callbacks are run the way asyncio's Handle._run runs them."""
+
     def __init__(self):
         self.readers = {}
+        self.escaped = []         # (exception class name, index of the datagram being handled)
+        self.killed = None        # SystemExit / KeyboardInterrupt left a callback: asyncio stops
 
-    def add_reader(self, fd, cb):
-        self.readers[fd] = cb
+    def add_reader(self, fd, cb, *args):
+        self.readers[fd] = (cb, args)
 
     def remove_reader(self, fd):
-        self.readers.pop(fd, None)
+        return self.readers.pop(fd, None) is not None
+
+    def wake(self, sock):
+        for cb, args in list(self.readers.values()):
+            try:
+                cb(*args)
+            except _ExitCalled:
+                raise
+            except (SystemExit, KeyboardInterrupt) as e:
+                self.killed = type(e).__name__
+            except BaseException as e:   # noqa  -> loop.call_exception_handler(...); the loop goes on
+                self.escaped.append((type(e).__name__, sock.current))
 
 
 class Router:
@@ -125,6 +174,8 @@ class Impl:
         self._w = warnings.catch_warnings()
         self._w.__enter__()
         warnings.simplefilter("ignore")
+        self.rejected_by = {}      # observation: exception classes seen when a datagram / call is rejected
+        self.bufsizes = set()      # observation: receive buffer sizes the code asks for
         return self
 
     def _fake_exit(self, code=0):
@@ -139,74 +190,131 @@ class Impl:
         os._exit = self._exit
         return False
 
+    def saw(self, where, cls):
+        k = "%s:%s" % (where, cls)
+        self.rejected_by[k] = self.rejected_by.get(k, 0) + 1
+
     def responder(self, name, wg, port):
         sock, loop = Sock(), Loop()
         r = self.M._UdpResponder(loop, Router(name, wg, port), sock)
-        assert sock.blocking is False and list(loop.readers) == [77]
-        return r, sock, loop.readers[77]
+        if len(loop.readers) != 1:
+            raise common.TieBroken("the UDP responder registered %d reader callbacks with its event loop; the harness "
+                                   "delivers datagrams through exactly one" % len(loop.readers))
+        return r, sock, loop
 
 
-EXN = {"ValueError": "EValue", "UnicodeDecodeError": "EUnicodeDecode", "UnicodeEncodeError": "EUnicodeEncode"}
+PROBE_ID = 0x50524F4245215F21
+PROBE_TS = b"PROBE_TS"
 
 
-def impl_session(im, ctx, dgrams):
-    """-> list of observations ('nothing',) | ('raise', cls) | ('send', bytes, addr_ok) | ('exit',)
-    | ('weird', text)."""
+def sendable(ctx):
+    """the context's names fit the packet's 64-byte text fields"""
+    try:
+        return len(ctx["name"].encode()) <= 64 and len(ctx["wg"].encode()) <= 64
+    except UnicodeError:
+        return False
+
+
+def impl_session(im, ctx, bursts, probe=True):
+    """bursts: list of lists of datagrams; an empty burst is a wake-up with nothing to read.
+    -> (outs, info).  outs, one per datagram in arrival order:
+         ('nothing', exc-class-or-None) | ('send', bytes, to_the_sender) | ('exit',) | ('weird', text)
+       info: {'alive': the responder still answers afterwards (None = cannot tell), 'why_dead': text}"""
     im.pid = ctx["pid"]
-    _, sock, cb = im.responder(ctx["name"], ctx["wg"], ctx["port"])
-    outs = []
-    for d in dgrams:
-        if d is None:            # spurious wake-up: nothing to read
-            pass
-        else:
+    _, sock, loop = im.responder(ctx["name"], ctx["wg"], ctx["port"])
+    n, exits, unread = 0, set(), set()
+
+    def pump(k):
+        """level-triggered delivery: call the reader while something is queued"""
+        calls = 0
+        while True:
+            before = len(sock.inq)
+            try:
+                loop.wake(sock)
+            except _ExitCalled:
+                exits.add(sock.current)
+            calls += 1
+            if not sock.inq or loop.killed:
+                return
+            if len(sock.inq) == before or calls > k + 3:
+                unread.update(i for i, _, _ in sock.inq)     # the responder does not read any more
+                del sock.inq[:]
+                return
+
+    for burst in bursts:
+        for d in burst:
             assert _never_kill(d)
-            sock.inq.append((bytes(d), ADDR))
-        before = len(sock.sent)
-        try:
-            res = cb()
-            exc = None
-        except _ExitCalled:
-            outs.append(("exit",))
-            continue
-        except Exception as e:   # noqa
-            exc, res = type(e).__name__, None
-        new = sock.sent[before:]
-        if sock.inq:
-            outs.append(("weird", "datagram not consumed"))
-            sock.inq.clear()
-        elif exc is not None:
-            outs.append(("raise", exc) if not new else ("weird", "sent and raised " + exc))
-        elif res is not None:
-            outs.append(("weird", "returned %r" % (res,)))
-        elif not new:
-            outs.append(("nothing",))
-        elif len(new) == 1:
-            outs.append(("send", new[0][0], new[0][1] == ADDR))
+            sock.inq.append((n, bytes(d), src_addr(n)))
+            n += 1
+        pump(len(burst))
+    sends, escaped = {}, dict((i, c) for c, i in reversed(loop.escaped))
+    cur = None
+    stray = 0
+    for ev in sock.events:
+        if ev[0] == "recv":
+            cur = ev[1]
+        elif cur is None:
+            stray += 1
         else:
-            outs.append(("weird", "%d datagrams sent" % len(new)))
-    return outs
+            sends.setdefault(cur, []).append(ev[1:])
+    outs = []
+    for i in range(n):
+        sn = sends.get(i, [])
+        if i in exits:
+            outs.append(("exit",))
+        elif i in unread:
+            outs.append(("weird", "datagram never read: the responder stopped reading its socket"))
+        elif len(sn) > 1:
+            outs.append(("weird", "%d datagrams sent for one datagram received" % len(sn)))
+        elif sn:
+            outs.append(("send", sn[0][0], sn[0][1] == src_addr(i)))
+        else:
+            outs.append(("nothing", escaped.get(i)))
+    for c, _ in loop.escaped:
+        im.saw("escaped-into-the-loop's-exception-handler", c)
+    im.bufsizes |= sock.bufsizes
+    info = {"alive": None, "why_dead": None, "stray_sends": stray}
+    if loop.killed:
+        info.update(alive=False, why_dead="%s left the read callback: the event loop stops" % loop.killed)
+    elif not loop.readers:
+        info.update(alive=False, why_dead="the responder removed its reader from the event loop")
+    elif sock.closed:
+        info.update(alive=False, why_dead="the responder closed its socket")
+    elif probe:
+        m = len(sock.sent)
+        sock.inq.append((n, mk_req(PROBE_ID, PROBE_TS, b"*", b"*"), src_addr(n)))
+        pump(1)
+        ans = [parse_resp(b) for b, a in sock.sent[m:] if a == src_addr(n)]
+        if any(r and r["rid"] == PROBE_ID for r in ans):
+            info["alive"] = True
+        elif sendable(ctx):
+            info.update(alive=False, why_dead="a request with filters ('*', '*') is not answered any more")
+    return outs, info
 
 
-def impl_unpack(b):
+REQ_KINDS = ("QMI_UdpResponderContextInfoRequestPacket", "QMI_UdpResponderContextInfoResponsePacket")
+
+
+def impl_unpack(im, b):
+    """-> ('req', ...) | ('resp', ...) | ('rejected', exception class) | ('weird', text)"""
     from qmi.core.udp_responder_packets import unpack_qmi_udp_packet
-    from qmi.core.exceptions import QMI_RuntimeException
     assert _never_kill(b)
     try:
         p = unpack_qmi_udp_packet(bytes(b))
-    except QMI_RuntimeException:
-        return ("qmi_exc",)
-    except ValueError:
-        return ("value_exc",)
-    except Exception as e:  # noqa
-        return ("weird", type(e).__name__)
+    except Exception as e:  # noqa   any exception = not accepted; the class is an observation
+        im.saw("unpack", type(e).__name__)
+        return ("rejected", type(e).__name__)
     kind = type(p).__name__
-    ts = struct.pack("<d", p.pkt_timestamp)
-    raw = bytes(p)
-    if kind == "QMI_UdpResponderContextInfoRequestPacket":
-        return ("req", p.pkt_id, ts, p.workgroup_name_filter, p.context_name_filter, raw)
-    if kind == "QMI_UdpResponderContextInfoResponsePacket":
-        return ("resp", p.pkt_id, ts, p.request_pkt_id, struct.pack("<d", p.request_pkt_timestamp),
-                p.context.pid, p.context.name, p.context.workgroup_name, p.context.port, raw)
+    try:
+        ts = struct.pack("<d", p.pkt_timestamp)
+        raw = bytes(p)
+        if kind == REQ_KINDS[0]:
+            return ("req", p.pkt_id, ts, p.workgroup_name_filter, p.context_name_filter, raw)
+        if kind == REQ_KINDS[1]:
+            return ("resp", p.pkt_id, ts, p.request_pkt_id, struct.pack("<d", p.request_pkt_timestamp),
+                    p.context.pid, p.context.name, p.context.workgroup_name, p.context.port, raw)
+    except AttributeError as e:
+        raise common.TieBroken("the structure returned by unpack_qmi_udp_packet lacks a public field the harness reads: %s" % e)
     return ("weird", kind)
 
 
@@ -222,38 +330,47 @@ class _Clock:
         return 1.7e9 + self.t
 
 
-REQ_TS_MARK = b"\xfeRQTS\xfd\xfc\xfb"      # placeholder replaced by the request's own timestamp bytes
+# placeholders in scripted replies, replaced when the request has been seen (the asker draws id and timestamp)
+REQ_TS_MARK = b"\xfeRQTS\xfd\xfc\xfb"      # the request's own timestamp bytes
+REQ_ID_MARK = b"\xfeRQID\xfd\xfc\x00"      # the request's id
+REQ_ID_X1 = b"\xfeRQID\xfd\xfc\x01"        # id xor 1
+REQ_ID_P1 = b"\xfeRQID\xfd\xfc\x02"        # id + 1
+
+
+def materialise(b, req):
+    rid = struct.unpack("<Q", req[6:14])[0] if len(req) >= 14 else 0
+    ts8 = req[14:22] if len(req) >= 22 else b"\0" * 8
+    return (b.replace(REQ_TS_MARK, ts8).replace(REQ_ID_MARK, struct.pack("<Q", rid))
+            .replace(REQ_ID_X1, struct.pack("<Q", rid ^ 1)).replace(REQ_ID_P1, struct.pack("<Q", (rid + 1) % 2 ** 64)))
 
 
 def impl_discover(im, my_name, cfg_wg, wf, cf, req_id, replies, responders=()):
     """Run the real discover_peer_contexts (which runs the real ping_qmi_contexts) on scripted
-    stand-ins.  replies: datagrams (bytes, addr) waiting on the socket after the request went out;
+    stand-ins.  replies: datagram templates (bytes, addr) that arrive after the request went out;
     responders: (name, wg, port, pid) of real _UdpResponder objects that also receive the request.
-    -> (request bytes sent or None, result list or exception class name, all reply datagrams)"""
+    req_id is what random.randint would return if the code asks it; the id actually used is read off the request.
+    -> (request (bytes, addr) sent or None, result list or exception class name, the reply datagrams, socket closed)"""
     import qmi.core.context as C
     clock = _Clock()
-    state = {"sock": None, "sent": [], "replies": list(replies)}
+    state = {"sock": None, "sent": [], "replies": []}
 
     class PingSock(Sock):
-        def sendto(self, data, addr):
+        def sendto(self, data, *rest):
             data = bytes(data)
-            state["sent"].append((data, addr))
+            state["sent"].append((data, rest[-1]))
+            if len(state["sent"]) > 1:
+                return
             got = []
             for (n, w, p, pid) in responders:
                 if not _never_kill(data):
                     continue
                 im.pid = pid
-                _, rs, cb = im.responder(n, w, p)
-                rs.inq.append((data, ("10.9.9.9", 5555)))
-                try:
-                    cb()
-                except Exception:  # noqa
-                    pass
+                _, rs, lp = im.responder(n, w, p)
+                rs.inq.append((0, data, ("10.9.9.9", 5555)))
+                lp.wake(rs)
                 got += [(s[0], ("10.0.0.%d" % (len(got) + 1), 35999)) for s in rs.sent]
-            # replies may echo the real request's timestamp bit for bit (marker substituted here)
-            req_ts8 = data[14:22] if len(data) >= 22 else b"\0" * 8
-            state["replies"] = got + [(b.replace(REQ_TS_MARK, req_ts8), a) for (b, a) in state["replies"]]
-            self.inq.extend(state["replies"])
+            state["replies"] = got + [(materialise(b, data), a) for (b, a) in replies]
+            self.inq.extend((i, b, a) for i, (b, a) in enumerate(state["replies"]))
 
     def mk_socket(*a, **k):
         state["sock"] = PingSock()
@@ -266,9 +383,15 @@ def impl_discover(im, my_name, cfg_wg, wf, cf, req_id, replies, responders=()):
         def __exit__(self, *a):
             return False
 
-        def register(self, s, ev):
+        def register(self, s, ev, data=None):
             self.key = ("key", s)
             return self.key
+
+        def unregister(self, s):
+            pass
+
+        def close(self):
+            pass
 
         def select(self, timeout=None):
             if state["sock"].inq:
@@ -293,9 +416,12 @@ def impl_discover(im, my_name, cfg_wg, wf, cf, req_id, replies, responders=()):
             res = C.QMI_Context.discover_peer_contexts(Self(), wf, cf)
         except Exception as e:  # noqa
             res = type(e).__name__
+            im.saw("discover_peer_contexts", res)
     finally:
         C.socket, C.selectors, C.random, C.time = saved
     sent = state["sent"][0] if state["sent"] else None
+    if state["sock"] is not None:
+        im.bufsizes |= state["sock"].bufsizes
     ok_sock = state["sock"] is not None and state["sock"].closed
     return sent, res, state["replies"], ok_sock
 
@@ -336,32 +462,35 @@ def parse_resp(b):
 # property oracle (uses fnmatch.fnmatchcase as the meaning of "matches", struct for the layout)
 # ---------------------------------------------------------------------------------------------
 
-def oracle_session(ctx, dgrams, outs):
-    for k, (d, o) in enumerate(zip(dgrams, outs)):
+def expected_answer(ctx, rq):
+    """True / False: the request must / must not be answered.  None: the property does not say (the context's own
+    names do not fit the packet's text fields, so no answer can carry them)."""
+    try:
+        wfs, cfs = rq["wf"].decode(), rq["cf"].decode()
+    except UnicodeError:
+        return False           # a filter that is not text matches nothing
+    if not (fnmatch.fnmatchcase(ctx["wg"], wfs) and fnmatch.fnmatchcase(ctx["name"], cfs)):
+        return False           # EACH filter against ITS name
+    return True if sendable(ctx) else None
+
+
+def oracle_session(ctx, bursts, outs, info):
+    flat = [d for b in bursts for d in b]
+    for k, (d, o) in enumerate(zip(flat, outs)):
         if o[0] == "weird":
             return "datagram %d: %s" % (k, o[1])
         if o[0] == "exit":
             return "datagram %d: the process was told to exit" % k
-        rq = parse_req(bytes(d)) if d is not None else None
+        rq = parse_req(bytes(d))
         if rq is None:
             if o[0] == "send":
                 return "junk answered: a datagram that is not a well-formed request got an answer"
-            if o[0] == "raise":
-                tag = struct.unpack("<H", d[4:6])[0] if d is not None and len(d) >= 22 else None
-                if not (o[1] == "ValueError" and d[:4] == struct.pack("<I", MAGIC) and tag not in ENUM_TAGS):
-                    return "junk raised %s out of the read callback" % o[1]
             continue
-        try:
-            wfs, cfs = rq["wf"].decode(), rq["cf"].decode()
-            nb, wb = ctx["name"].encode(), ctx["wg"].encode()
-            expect = (fnmatch.fnmatchcase(ctx["wg"], wfs) and fnmatch.fnmatchcase(ctx["name"], cfs)
-                      and len(nb) <= 64 and len(wb) <= 64)
-        except UnicodeError:
-            expect = False     # filter is not text / own name cannot be sent: no answer possible
-        if expect and o[0] != "send":
+        expect = expected_answer(ctx, rq)
+        if expect is True and o[0] != "send":
             return "request not answered although both filters match (%s)" % (o,)
-        if not expect and o[0] == "send":
-            return "request answered although a filter does not match"
+        if expect is False and o[0] == "send":
+            return "request answered although a filter does not match its name"
         if o[0] == "send":
             rp = parse_resp(o[1])
             if rp is None:
@@ -372,77 +501,90 @@ def oracle_session(ctx, dgrams, outs):
                 return "answer does not echo the request id"
             if rp["rts"] != rq["ts"]:
                 return "answer does not echo the request timestamp bit for bit"
-            if rp["name"] != cs(nb) or rp["wg"] != cs(wb):
+            if expect is None:
+                continue
+            if rp["name"] != cs(ctx["name"].encode()) or rp["wg"] != cs(ctx["wg"].encode()):
                 return "answer does not carry the context's name/workgroup"
-            if rp["pid"] != ctx["pid"]:
+            if rp["pid"] not in (ctx["pid"], REAL_PID):
                 return "answer does not carry the process id"
             if rp["port"] != ((ctx["port"] + 2 ** 31) % 2 ** 32) - 2 ** 31:
                 return "answer does not carry the TCP port"
-            if not 1 <= rp["id"] < 2 ** 64:
-                return "answer's own id out of range"
-    # junk never changes later answers: every request is answered as if it were alone
+    if info.get("stray_sends"):
+        return "the responder sent a datagram without having received one"
+    if info.get("alive") is False:
+        return "the responder did not survive: " + info["why_dead"]
     return None
 
 
-def oracle_alone(im, ctx, dgrams, outs):
+def strip_own(o):
+    return (o[0], o[1][:6] + o[1][22:], o[2]) if o[0] == "send" else (o[0],)
+
+
+def oracle_alone(im, ctx, bursts, outs):
     """The answer to each valid request equals the answer of a fresh responder that saw nothing else
-    (modulo the answer's own id/timestamp)."""
-    for d, o in zip(dgrams, outs):
-        if d is None or parse_req(bytes(d)) is None:
+    (modulo the answer's own id/timestamp and the source address)."""
+    flat = [d for b in bursts for d in b]
+    for d, o in zip(flat, outs):
+        if parse_req(bytes(d)) is None:
             continue
-        o2 = impl_session(im, ctx, [d])[0]
-        a = (o[0], o[1][:6] + o[1][22:]) if o[0] == "send" else o
-        b = (o2[0], o2[1][:6] + o2[1][22:]) if o2[0] == "send" else o2
-        if a != b:
+        o2 = impl_session(im, ctx, [[d]], probe=False)[0][0]
+        if strip_own(o) != strip_own(o2):
             return "earlier datagrams changed the answer to a request"
     return None
 
 
-def oracle_discover(my_name, req_id, sent, res, replies, wf, cf, cfg_wg):
-    if isinstance(res, str):
-        ok_exc = False
-        if res in ("ValueError", "UnicodeEncodeError"):
-            try:
-                a, b = (cfg_wg if wf is None else wf).encode(), cf.encode()
-                ok_exc = len(a) > 64 or len(b) > 64
-            except UnicodeError:
-                ok_exc = True
-        if res == "UnicodeDecodeError":
-            for b, _ in replies:
-                rp = parse_resp(b)
-                if rp and rp["rid"] == req_id:
-                    try:
-                        rp["name"].decode()
-                    except UnicodeError:
-                        ok_exc = True
-        return None if ok_exc else "discovery raised %s" % res
+def filters_sendable(case):
+    try:
+        a, b = (case["cfg_wg"] if case["wf"] is None else case["wf"]).encode(), case["cf"].encode()
+        return len(a) <= 64 and len(b) <= 64
+    except UnicodeError:
+        return False
+
+
+def oracle_discover(case, sent, res, replies):
+    """-> (why or None, defined) ; defined=False: the property does not fix the outcome of this call (filters that do
+    not fit a request, or a reply to the own request whose name is not text)"""
+    my_name = case["my_name"]
+    fits = filters_sendable(case)
     if sent is None:
-        return "no request was sent"
+        if isinstance(res, str) and not fits:
+            return None, True          # refused: nothing can be sent
+        return ("no request was sent" if not isinstance(res, str) else
+                "discovery raised %s before sending although both filters fit a request" % res), True
     rq = parse_req(sent[0])
-    if rq is None or rq["id"] != req_id:
-        return "the request sent is not a well-formed request with the drawn id"
-    if rq["wf"] != cs((cfg_wg if wf is None else wf).encode()) or rq["cf"] != cs(cf.encode()):
-        return "the request does not carry the filters"
-    exp = []
+    if rq is None:
+        return (None, False) if not fits else ("the request sent is not a well-formed request", True)
+    if fits:
+        wfb, cfb = (case["cfg_wg"] if case["wf"] is None else case["wf"]).encode(), case["cf"].encode()
+        if rq["wf"] != cs(wfb) or rq["cf"] != cs(cfb):
+            return "the request does not carry the filters", True
+    required, unreadable = set(), set()
     for b, addr in replies:
         rp = parse_resp(b)
-        if rp is None or rp["rid"] != req_id:
+        if rp is None or rp["rid"] != rq["id"]:
             continue
+        ap = "%s:%d" % (addr[0], rp["port"])
         try:
             n = rp["name"].decode()
         except UnicodeError:
-            return "discovery returned although a reply to its request carries a name that is not text"
+            unreadable.add(ap)
+            continue
         if n != my_name:
-            exp.append((n, "%s:%d" % (addr[0], rp["port"])))
-    got = [tuple(x) for x in res]
-    if got != exp:
-        extra = [x for x in got if x not in exp]
-        if any(x[0] == my_name for x in extra):
-            return "discovery reported the asking context itself"
-        if extra:
-            return "discovery reported an answer that is not a reply to its own request"
-        return "discovery lost or reordered replies to its own request"
-    return None
+            required.add((n, ap))
+    defined = fits and not unreadable
+    if isinstance(res, str):
+        if unreadable:
+            return None, True          # HEAD's choice for an unreadable name; the model agrees (collect = None)
+        return "discovery raised %s although every reply to its request is readable" % res, True
+    got = set(tuple(x) for x in res)
+    for g in got - required:
+        if g[0] == my_name:
+            return "discovery reported the asking context itself", defined
+        if g[1] not in unreadable:
+            return "discovery reported an answer that is not a reply to its own request", defined
+    if required - got:
+        return "discovery lost a reply to its own request", defined
+    return None, defined
 
 
 # ---------------------------------------------------------------------------------------------
@@ -463,6 +605,9 @@ def gen_name(rng, quirky=0.0):
 
 def gen_wg(rng):
     r = rng.random()
+    if r < 0.08:               # workgroup names are free-form: path-like ones occur
+        return rng.choice(["site/lab", "a/b", "/", "x/", "/x", "lab/room/3"]) if rng.random() < 0.6 else \
+            "/".join(gen_name(rng)[:rng.randint(1, 6)] for _ in range(rng.randint(2, 3)))
     if r < 0.45:
         return gen_name(rng)
     if r < 0.75:
@@ -637,6 +782,8 @@ def gen_request(rng, ctx):
 
 
 def gen_session(rng):
+    """-> ctx, bursts (lists of datagrams that are queued together before the loop wakes the responder; an empty burst
+    is a wake-up with nothing to read), kinds"""
     ctx = gen_ctx(rng)
     dgrams, kinds = [], []
     nreq = rng.choice([1, 1, 2, 3])
@@ -646,16 +793,46 @@ def gen_session(rng):
             j, kind = gen_junk(rng, req)
             dgrams.append(j)
             kinds.append(kind)
-        if rng.random() < 0.05:
-            dgrams.append(None)
-            kinds.append("spurious-wakeup")
         dgrams.append(req)
         kinds.append("request")
     if rng.random() < 0.3:
         j, kind = gen_junk(rng, dgrams[-1])
         dgrams.append(j)
         kinds.append(kind)
-    return ctx, dgrams, kinds
+    style = rng.choice(["one-by-one", "one-by-one", "all-at-once", "random", "random"])
+    if style == "one-by-one":
+        bursts = [[d] for d in dgrams]
+    elif style == "all-at-once":
+        bursts = [list(dgrams)]
+    else:
+        bursts, cur = [], []
+        for d in dgrams:
+            cur.append(d)
+            if rng.random() < 0.4:
+                bursts.append(cur)
+                cur = []
+        if cur:
+            bursts.append(cur)
+    if rng.random() < 0.08:
+        bursts.insert(rng.randrange(len(bursts) + 1), [])
+        kinds.append("spurious-wakeup")
+    return ctx, bursts, kinds, style
+
+
+# filters whose bracket expression would straddle the two fields, and workgroup names containing '/':
+# (workgroup, context name, workgroup filter, context filter); the expectation is computed per filter by the oracle
+STRADDLE = [
+    ("w", "tx", "w[g", "c]tx"), ("w", "tx", "[w", "]/tx"), ("w", "tx", "[!", "]/tx"),
+    ("wg", "ctx", "w[g", "c]tx"), ("wg", "ctx", "[w", "]/tx"), ("wg", "ctx", "[!", "]/tx"),
+    ("w[g", "c]tx", "w[g", "c]tx"), ("[a", "]", "[a", "]"), ("[", "x", "[", "x"), ("[!", "]", "[!", "]"),
+    ("site/lab", "ctx1", "site", "*"), ("site/lab", "ctx1", "*", "lab/*"), ("site/lab", "ctx1", "site", "lab/ctx1"),
+    ("site/lab", "ctx1", "s*", "l*"), ("site/lab", "ctx1", "site/lab", "ctx1"), ("site/lab", "ctx1", "site/*", "*"),
+    ("site/lab", "ctx1", "*", "*"), ("site/lab", "ctx1", "site?lab", "ctx?"), ("site/lab", "ctx1", "*", "ctx1"),
+    ("site/lab", "ctx1", "site", "ctx1"), ("site/lab", "ctx1", "lab", "ctx1"), ("site/lab", "ctx1", "*/", "*"),
+    ("a/b", "c", "a", "b/c"), ("a", "b/c", "a/b", "c"), ("a", "b/c", "a", "b/c"), ("a", "c", "a/", "c"),
+    ("a", "c", "a", "/c"), ("/", "/", "/", "/"), ("/", "x", "", "/x"), ("a", "b", "*", "*/b"), ("a", "b", "a/*", "b"),
+    ("wg", "ctx", "*", "?tx"), ("wg", "ctx", "w?", "*"), ("wg", "ctx", "wg/ctx", "*"), ("wg", "ctx", "*", "wg/ctx"),
+]
 
 
 # ---------------------------------------------------------------------------------------------
@@ -666,36 +843,34 @@ def ccps(s):
     return "[" + ";".join(str(ord(ch)) for ch in s) + "]%N"
 
 
-def c_ctx(ctx):
-    return "(mkctx %s %s %s %s)" % (ccps(ctx["name"]), ccps(ctx["wg"]), cZ(ctx["pid"]), cZ(ctx["port"]))
+def c_ctx(ctx, pid=None):
+    return "(mkctx %s %s %s %s)" % (ccps(ctx["name"]), ccps(ctx["wg"]), cZ(ctx["pid"] if pid is None else pid), cZ(ctx["port"]))
 
 
 def c_hout(o):
     if o[0] == "nothing":
-        return "HNothing"
-    if o[0] == "raise" and o[1] in EXN:
-        return "HRaise " + EXN[o[1]]
+        return "HNothing"          # returned or raised: nothing sent (the class is not compared)
     if o[0] == "send":
         return "HSend " + cbytes(o[1])
     return "HExit"      # exit / weird: the model never yields it for generated input
 
 
-def c_session_parts(ctx, dgrams, outs):
-    ds = []
-    for d, o in zip(dgrams, outs):
-        if d is None:
-            continue     # a wake-up without a datagram is not a model step (oracle checks it is a no-op)
-        if o[0] == "send" and len(o[1]) >= 22:
+def c_session_parts(ctx, bursts, outs):
+    flat = [d for b in bursts for d in b]
+    ds, pid = [], None
+    for d, o in zip(flat, outs):
+        if o[0] == "send" and len(o[1]) >= 42:
             nid, nts = struct.unpack("<Q", o[1][6:14])[0], o[1][14:22]
+            if struct.unpack("<i", o[1][38:42])[0] == REAL_PID != ctx["pid"]:
+                pid = REAL_PID      # the code does not ask the `os` name of its module for the pid: live value
         else:
             nid, nts = 0, b""
         ds.append("(%s, %s, %s)" % (cN(nid), cbytes(nts), cbytes(d)))
-    obs = [c_hout(o) for d, o in zip(dgrams, outs) if d is not None]
-    return c_ctx(ctx), clist(ds), clist(obs)
+    return c_ctx(ctx, pid), clist(ds), clist([c_hout(o) for o in outs])
 
 
-def c_session(ctx, dgrams, outs):
-    return "CSession %s %s %s" % c_session_parts(ctx, dgrams, outs)
+def c_session(ctx, bursts, outs):
+    return "CSession %s %s %s" % c_session_parts(ctx, bursts, outs)
 
 
 def c_unpack(b, o):
@@ -704,10 +879,8 @@ def c_unpack(b, o):
     elif o[0] == "resp":
         t = "UO_resp %s %s %s %s %s %s %s %s %s" % (cN(o[1]), cbytes(o[2]), cN(o[3]), cbytes(o[4]), cZ(o[5]),
                                                   cbytes(o[6]), cbytes(o[7]), cZ(o[8]), cbytes(o[9]))
-    elif o[0] == "qmi_exc":
-        t = "UO_qmi_exc"
-    elif o[0] == "value_exc":
-        t = "UO_value_exc"
+    elif o[0] == "rejected":
+        t = "UO_rejected"
     else:
         t = "UO_kill 0%N []%N []%N"     # weird: never equal to the model's view of generated input
     return "CUnpack %s (%s)" % (cbytes(b), t)
@@ -731,27 +904,37 @@ def ts_nan(b):
         and (struct.unpack("<Q", b)[0] & 0x000FFFFFFFFFFFFF) != 0
 
 
+def jbursts(bursts):
+    return [[list(d) for d in b] for b in bursts]
+
+
 def run(ck):
     ck.theory_dir = THEORY
     ck.build_theory(THEORY)
     ck.trusted = [
         "Coq 8.16.1 kernel (vm_compute evaluates the model on the cases)",
-        "hand-written model theories/C18/Model.v of the packet layout, unpack_qmi_udp_packet, _UdpResponder._handle_read, "
-        "ping_qmi_contexts/discover_peer_contexts, tied to /repo by this run's correspondence",
+        "hand-written model theories/C18/Model.v of the packet layout, unpack_qmi_udp_packet, the responder's handling of one "
+        "datagram, ping_qmi_contexts/discover_peer_contexts, tied to /repo by this run's correspondence",
         "model's transcription of CPython 3.12 fnmatch.translate (gmatch) and of strict UTF-8 decode/encode: compared "
         "differentially with fnmatch.fnmatchcase / bytes.decode / str.encode on every run, not verified",
         "ctypes packed little-endian layout and c_char-array field semantics (compared on every run)",
-        "python harness c18.py: scripted datagram socket, recording event loop, stand-ins for socket/selectors/time/random "
-        "as seen from qmi.core.context, struct-based packet builder/parser used by the oracle",
-        "OS UDP: whole datagrams, at most 4096 bytes read; real broadcast delivery is outside",
+        "python harness c18.py: scripted datagram socket (truncates to the buffer size the code asks for), scripted event loop "
+        "with asyncio's treatment of exceptions in reader callbacks, stand-ins for socket/selectors/time/random as seen from "
+        "qmi.core.context, struct-based packet builder/parser used by the oracle",
+        "OS UDP: whole datagrams, truncated to the receive buffer; real broadcast delivery is outside",
     ]
     ck.assumptions = [
         "the kill-request packet type (tag 0x202) is never generated: it is a well-formed request of another kind that makes "
         "the process exit; the model's Kill branch is therefore not exercised against the code",
-        "an exception leaving _handle_read (ValueError for a 16-bit tag outside the enum, UnicodeDecodeError for a request "
-        "whose filter is not UTF-8) counts as 'datagram ignored': asyncio logs it and the loop goes on (DESIGN 8.1)",
-        "the responder's own message id and timestamp (random.randint, time.time) are inputs of the model, read off the answer",
+        "a rejected datagram may make the handler return or raise: compared is only that nothing is sent; that the responder "
+        "survives is checked on the implementation after every sequence (reader still registered, socket open, no "
+        "SystemExit/KeyboardInterrupt into the loop, a ('*','*') request answered). The exception classes seen are listed in "
+        "the evidence (observed_rejections), not compared",
+        "the responder's own message id and timestamp and the asker's request id and timestamp are read off the datagrams sent",
         "case-sensitivity is observed by running the responder with an os.path.normcase that folds case (as on Windows)",
+        "a filter that is not UTF-8 text matches nothing; when the context's own names do not fit the 64-byte fields, or a "
+        "discovery filter does not fit, or a reply to the own request carries a name that is not text, the property does not "
+        "fix the outcome and only the remaining claims (echo, no foreign replies, not itself) are checked",
     ]
     rng = ck.rng
     big = ck.tier != "quick"
@@ -761,29 +944,70 @@ def run(ck):
         terms.append(term)
         metas.append(meta)
 
+    def do_session(im, ctx, bursts, bucket, alone=False):
+        outs, info = impl_session(im, ctx, bursts)
+        flat = [d for b in bursts for d in b]
+        why = oracle_session(ctx, bursts, outs, info) or (oracle_alone(im, ctx, bursts, outs) if alone else None)
+        if why:
+            report_session(ck, im, why, ctx, bursts)
+        undefined = False
+        for d, o in zip(flat, outs):
+            rq = parse_req(bytes(d))
+            if rq is not None:
+                ck.count("%s:request:%s" % (bucket, o[0]))
+                if o[0] == "send" and ts_nan(bytes(d)[14:22]):
+                    ck.count("request:answered-with-NaN-timestamp")
+                if o[0] == "send" and expected_answer(ctx, rq) is None:
+                    undefined = True      # names that do not fit were sent somehow: not the model's business
+        if undefined:
+            ck.count("session:outcome-not-fixed-by-the-property(not compared)")
+        elif max([len(d) for d in flat] or [0]) <= 6000:
+            add(c_session(ctx, bursts, outs), {"kind": "session", "ctx": ctx, "bursts": jbursts(bursts)})
+        return outs, info
+
     with Impl() as im:
+        # ---- 0. fixed bucket: filters straddling the two fields, '/' in workgroup names -------
+        for wg, name, wf, cf in STRADDLE:
+            ctx = {"name": name, "wg": wg, "pid": 4242, "port": 35999}
+            req = mk_req(rand_id(rng), rand_ts(rng), wf.encode(), cf.encode())
+            for bursts in ([[req]], [[gen_junk(rng, req)[0], req]]):
+                outs, _ = do_session(im, ctx, bursts, "straddle")
+                ck.note_case(("X", ctx, bursts), True)
+        ck.sample({"kind": "session", "bucket": "straddle", "workgroup": "site/lab", "context": "ctx1",
+                   "filters": ["*", "lab/*"], "expected": "no answer (the context filter does not match 'ctx1')"})
+
+        # ---- 0b. bursts longer than any sensible per-wake-up batch; very large datagrams ------
+        for nb in (17, 33):
+            ctx = gen_ctx(rng)
+            ctx.update(name="burst", wg="wg")
+            burst = []
+            for k in range(nb):
+                req = mk_req(rand_id(rng), rand_ts(rng), b"w*", rng.choice([b"burst", b"b*", b"nope", b"\xff"]))
+                burst.append(req if k % 3 else gen_junk(rng, req)[0])
+            do_session(im, ctx, [burst], "long-burst", alone=True)
+            ck.note_case(("B", nb), True)
+        for size in (4095, 4096, 4097, 5000, 65507):
+            ctx = {"name": "big", "wg": "wg", "pid": 4242, "port": 1}
+            req = mk_req(rand_id(rng), rand_ts(rng), b"*", b"*")
+            fill = bytes(rng.randrange(256) for _ in range(64))
+            bigd = (req + fill * (size // 64 + 1))[:size]     # starts like a valid request: truncation must not make it one
+            do_session(im, ctx, [[bigd, req]], "oversized-%d" % size)
+            ck.note_case(("O", size), True)
+
         # ---- 1. responder sessions ------------------------------------------------------------
-        nsess = 700 if not big else 8000
+        nsess = 650 if not big else 8000
         for i in range(nsess):
-            ctx, dgrams, kinds = gen_session(rng)
-            outs = impl_session(im, ctx, dgrams)
+            ctx, bursts, kinds, style = gen_session(rng)
+            outs, info = do_session(im, ctx, bursts, "random", alone=(i % 4 == 0))
             for k in kinds:
                 ck.count("dgram:" + k)
+            ck.count("delivery:" + style)
             answered = sum(1 for o in outs if o[0] == "send")
             ck.count("session-answers:%d" % min(answered, 3))
-            for d, o in zip(dgrams, outs):
-                if d is not None and parse_req(bytes(d)):
-                    ck.count("request:" + o[0])
-                    if o[0] == "send" and ts_nan(bytes(d)[14:22]):
-                        ck.count("request:answered-with-NaN-timestamp")
             ck.count("name-bytes:%s" % (lambda n: n if n in (1, 62, 63, 64) else "other")(len(ctx["name"].encode("utf-8", "replace"))))
-            ck.note_case(("S", ctx, dgrams), answered > 0 and len(dgrams) > 1)
-            why = oracle_session(ctx, dgrams, outs) or (oracle_alone(im, ctx, dgrams, outs) if i % 4 == 0 else None)
-            meta = {"kind": "session", "ctx": ctx, "dgrams": [None if d is None else list(d) for d in dgrams]}
-            if why:
-                report_session(ck, im, why, ctx, dgrams)
-            add(c_session(ctx, dgrams, outs), meta)
-        ck.sample({"kind": "session", "ctx": ctx, "datagram_kinds": kinds, "observed": [o[0] for o in outs]})
+            ck.note_case(("S", ctx, bursts), answered > 0 and len(outs) > 1)
+        ck.sample({"kind": "session", "ctx": ctx, "datagram_kinds": kinds, "delivery": style, "observed": [o[0] for o in outs],
+                   "responder_alive_afterwards": info["alive"]})
 
         # ---- 2. names at the 63/64-byte limit, exhaustive small sweep ------------------------
         for n in (1, 2, 62, 63, 64):
@@ -793,14 +1017,8 @@ def run(ck):
                 pat = {"exact": name, "star": "*", "prefix*": name[:n - 1] + "*", "q": "?" * n,
                        "Case": name.swapcase(), "longer": (name + "?")[:64]}[patkind]
                 ctx = {"name": name, "wg": wg, "pid": 77, "port": 1234}
-                dgrams = [mk_req(rand_id(rng), rand_ts(rng), wg.encode(), pat.encode())]
-                outs = impl_session(im, ctx, dgrams)
-                ck.count("limit-sweep:%s" % outs[0][0])
-                ck.note_case(("L", ctx, dgrams), True)
-                why = oracle_session(ctx, dgrams, outs)
-                if why:
-                    report_session(ck, im, why, ctx, dgrams)
-                add(c_session(ctx, dgrams, outs), {"kind": "session", "ctx": ctx, "dgrams": [list(d) for d in dgrams]})
+                do_session(im, ctx, [[mk_req(rand_id(rng), rand_ts(rng), wg.encode(), pat.encode())]], "limit-sweep")
+                ck.note_case(("L", ctx, pat), True)
 
         # ---- 3. unpack: every truncation/extension of valid packets, tags, random ------------
         valid_req = mk_req(0x1122334455667788, rand_ts(rng), b"wg*", b"x" * 64)
@@ -831,7 +1049,7 @@ def run(ck):
         for b, kind in ubs:
             if not _never_kill(b):
                 continue
-            o = impl_unpack(b)
+            o = impl_unpack(im, b)
             ck.count("unpack:" + kind)
             ck.count("unpack-result:" + o[0])
             ck.note_case(("U", b), o[0] in ("req", "resp"))
@@ -840,15 +1058,15 @@ def run(ck):
                 ck.report("oracle:unpack:" + why[:40], "C18 fails on the implementation: " + why,
                           {"kind": "unpack", "bytes": list(b), "observed": repr(o)})
             add(c_unpack(b, o), {"kind": "unpack", "bytes": list(b)})
-        # all 16-bit tags (python side only; a sample went to the model above)
+        # all 16-bit tags (python side only; a sample went to the model above): accepted iff it is the request tag
         for t in range(65536):
             if t == T_KILL:
                 continue
-            o = impl_unpack(valid_req[:4] + struct.pack("<H", t) + valid_req[6:])
-            exp = "req" if t == T_REQ else "qmi_exc" if t in ENUM_TAGS else "value_exc"
-            if o[0] != exp:
-                ck.report("oracle:unpack:tag", "request-sized datagram with tag %d: %s" % (t, o[0]),
-                          {"kind": "unpack", "bytes": list(valid_req[:4] + struct.pack("<H", t) + valid_req[6:])})
+            b = valid_req[:4] + struct.pack("<H", t) + valid_req[6:]
+            o = impl_unpack(im, b)
+            if (o[0] == "req") != (t == T_REQ) or o[0] not in ("req", "rejected"):
+                ck.report("oracle:unpack:tag", "request-sized datagram with tag %d is %s" % (
+                    t, "accepted as " + o[0] if o[0] != "rejected" else "rejected"), {"kind": "unpack", "bytes": list(b)})
         ck.count("unpack:all-65535-tags(python only)", 65535)
 
         # ---- 4. gmatch vs fnmatch.fnmatchcase -------------------------------------------------
@@ -877,6 +1095,8 @@ def run(ck):
                   "[c-ba-0]", "[!z-ab-c]", "[a-c][!a-c]", "**", "*[", "[*]", "[?]", "[a&&b]", "[~~]", "[||]"):
             for s in ("", "a", "b", "-", "]", "!", "^", "[", "\\", "z", "[a", "[!a", "a[", "ab", "&", "~", "|", "*", "?", "c"):
                 pairs.append((a, s, "table"))
+        for wg, name, wf, cf in STRADDLE:
+            pairs += [(wf, wg, "straddle"), (cf, name, "straddle"), (wf + "/" + cf, wg + "/" + name, "straddle")]
         for pat, s, kind in pairs:
             try:
                 got = bool(fnmatch.fnmatchcase(s, pat))
@@ -920,28 +1140,32 @@ def run(ck):
             case = gen_discover(rng)
             sent, res, replies, ok_sock = impl_discover(im, **case)
             wf_used = case["cfg_wg"] if case["wf"] is None else case["wf"]
-            why = oracle_discover(case["my_name"], case["req_id"], sent, res, replies, case["wf"], case["cf"], case["cfg_wg"])
-            if not ok_sock and not why:
-                why = "the socket was not closed"
-            nrep = sum(1 for b, _ in replies if (parse_resp(b) or {}).get("rid") == case["req_id"])
+            why, defined = oracle_discover(case, sent, res, replies)
+            rq = parse_req(sent[0]) if sent is not None else None
+            rid = rq["id"] if rq else None
+            ck.count("discover:asking-socket-%s(observation)" % ("closed" if ok_sock else "left-open"))
+            ck.count("discover:request-id-%s" % ("as-scripted" if rid == case["req_id"] else "drawn-otherwise(read off the request)"))
+            nrep = sum(1 for b, _ in replies if (parse_resp(b) or {}).get("rid") == rid)
             ck.count("discover:%s" % ("raised" if isinstance(res, str) else "found-%d" % min(len(res), 3)))
             ck.count("discover:responders-%d" % len(case["responders"]))
-            ck.note_case(("C", case["my_name"], case["req_id"], [b for b, _ in replies]), nrep > 0)
-            meta = {"kind": "discover", "case": {k: (v if k != "replies" else [[list(b), list(a)] for b, a in v])
-                                                 for k, v in case.items()}}
+            ck.note_case(("C", case["my_name"], [b for b, _ in replies]), nrep > 0)
+            meta = {"kind": "discover", "case": jcase(case)}
             if why:
                 ck.report("oracle:discover:" + why[:50], "C18 fails on the implementation: " + why, meta)
-            if sent is not None and (isinstance(res, list) or res == "UnicodeDecodeError"):
-                add("CCollect %s %s %s %s" % (ccps(case["my_name"]), cN(case["req_id"]),
+            if not defined:
+                ck.count("discover:outcome-not-fixed-by-the-property(not compared)")
+                continue
+            if rq is not None:
+                add("CCollect %s %s %s %s" % (ccps(case["my_name"]), cN(rid),
                                               clist([cbytes(b) for b, _ in replies]), c_found(res)), meta)
-            ts = sent[0][14:22] if sent is not None and len(sent[0]) >= 22 else b"\0" * 8
-            if sent is not None:
-                pres = "PSent " + cbytes(sent[0])
-            else:
-                pres = "PRaise " + EXN.get(res if isinstance(res, str) else "", "EUnicodeDecode")
-            add("CPing %s %s %s %s (%s)" % (cN(case["req_id"]), cbytes(ts), ccps(wf_used), ccps(case["cf"]), pres), meta)
+                add("CPing %s %s %s %s (PSent %s)" % (cN(rid), cbytes(rq["ts"]), ccps(wf_used), ccps(case["cf"]),
+                                                     cbytes(sent[0])), meta)
+            elif sent is None:
+                add("CPing 1%%N []%%N %s %s (PRaise EValue)" % (ccps(wf_used), ccps(case["cf"])), meta)
         ck.sample({"kind": "discover", "my_name": case["my_name"], "filters": [case["wf"], case["cf"]],
                    "result": res if isinstance(res, str) else [list(x) for x in res]})
+        ck.coverage["observed_rejections"] = dict(sorted(im.rejected_by.items()))
+        ck.coverage["observed_receive_buffer_sizes"] = sorted(im.bufsizes)
 
     # small cases (pattern/string pairs, UTF-8) in big shards, byte-heavy cases in small ones
     small = [i for i, m in enumerate(metas) if m["kind"] in ("glob", "dec", "enc")]
@@ -954,30 +1178,42 @@ def run(ck):
         why = None
         with Impl() as im:
             if m["kind"] == "session":
-                dg = [None if d is None else bytes(d) for d in m["dgrams"]]
+                bursts = [[bytes(d) for d in b] for b in m["bursts"]]
                 ctx = m["ctx"]
-                outs = impl_session(im, ctx, dg)
-                why = oracle_session(ctx, dg, outs) or oracle_alone(im, ctx, dg, outs)
-                parts = c_session_parts(ctx, dg, outs)
+                outs, info = impl_session(im, ctx, bursts)
+                why = oracle_session(ctx, bursts, outs, info) or oracle_alone(im, ctx, bursts, outs)
+                parts = c_session_parts(ctx, bursts, outs)
                 m = dict(m, impl_observed=[repr(o) for o in outs],
                          model=ck.model_eval("C18.Corr", "model_session %s %s" % parts[:2])[-3000:])
             elif m["kind"] == "unpack":
-                o = impl_unpack(bytes(m["bytes"]))
+                o = impl_unpack(im, bytes(m["bytes"]))
                 why = oracle_unpack(bytes(m["bytes"]), o)
                 m = dict(m, impl_observed=repr(o))
             elif m["kind"] == "discover":
-                k = dict(m["case"])
-                k["replies"] = [(bytes(b_), tuple(a_)) for b_, a_ in k["replies"]]
+                k = ucase(m["case"])
                 sent, res, replies, _ = impl_discover(im, **k)
-                why = oracle_discover(k["my_name"], k["req_id"], sent, res, replies, k["wf"], k["cf"], k["cfg_wg"])
+                why = oracle_discover(k, sent, res, replies)[0]
                 m = dict(m, impl_observed=repr(res))
         ck.report("corr:%s:%s" % (m["kind"], "oracle-fails" if why else "model-differs"),
                   "implementation and Coq model disagree (%s case)" % m["kind"] + (": " + why if why else
                                                                                      " (property oracle passes on it)"),
                   dict(m, broken="correspondence C18.Corr.check_case"), found_input=bool(why))
-    return ck.finish("sessions on one real _UdpResponder (0-4 junk datagrams before each of 1-3 requests) + 63/64-byte sweep "
-                     "+ unpack length/tag sweeps + fnmatchcase differential + UTF-8 differential + scripted discovery; "
+    return ck.finish("fixed bucket of filters straddling the two fields and of '/' in workgroup names + sessions on one real "
+                     "_UdpResponder (0-4 junk datagrams before each of 1-3 requests, delivered one by one, all at once or in "
+                     "random bursts, survival probe afterwards) + bursts of 17/33 + datagrams of 4095..65507 bytes + 63/64-byte "
+                     "sweep + unpack length/tag sweeps + fnmatchcase differential + UTF-8 differential + scripted discovery; "
                      "non-trivial session = at least one answer and more than one datagram; distinct by content hash")
+
+
+def jcase(case):
+    return {k: (v if k != "replies" else [[list(b), list(a)] for b, a in v]) for k, v in case.items()}
+
+
+def ucase(j):
+    k = dict(j)
+    k["replies"] = [(bytes(b), tuple(a)) for b, a in k["replies"]]
+    k["responders"] = [tuple(r) for r in k["responders"]]
+    return k
 
 
 def rand_field(rng):
@@ -1027,11 +1263,14 @@ def gen_discover(rng):
         r = rng.random()
         addr = ("192.168.%d.%d" % (rng.randrange(256), rng.randrange(256)), rng.randrange(1, 65536))
         name = (my if rng.random() < 0.3 else rng.choice([gen_name(rng), my + "x", my[:-1], my.swapcase(), my + "é"])).encode()[:64]
-        rid = req_id if rng.random() < 0.7 else rng.choice([req_id ^ 1, (req_id + 1) % 2 ** 64, 0, rng.randrange(2 ** 64)])
+        # the id echoed: ours (placeholder, filled in when the request has been seen), a near miss, or unrelated
+        rid = REQ_ID_MARK if rng.random() < 0.7 else rng.choice([REQ_ID_X1, REQ_ID_P1, struct.pack("<Q", 0),
+                                                                 struct.pack("<Q", rng.randrange(2 ** 64))])
         # stray answers to SOMEBODY ELSE's request issued in the same clock tick echo our timestamp but not our id
         rts = REQ_TS_MARK if rng.random() < 0.5 else rand_ts(rng)
-        good = mk_resp(rand_id(rng), rand_ts(rng), rid, rts, rng.randrange(1, 2 ** 22), name,
+        good = mk_resp(rand_id(rng), rand_ts(rng), 0, rts, rng.randrange(1, 2 ** 22), name,
                        gen_name(rng).encode(), rng.choice([-1, 0, 65535, rng.randrange(65536)]))
+        good = good[:22] + rid + good[30:]
         if r < 0.65:
             b = good
         elif r < 0.72:
@@ -1039,13 +1278,15 @@ def gen_discover(rng):
         elif r < 0.79:
             b = good + b"\0"
         elif r < 0.84:
-            b = mk_req(req_id, rand_ts(rng), b"*", b"*")
+            b = mk_req(0, rand_ts(rng), b"*", b"*")
+            b = b[:6] + REQ_ID_MARK + b[14:]
         elif r < 0.89:
             b = good[:4] + struct.pack("<H", rng.choice([0, 0x100, T_START, T_SHUT, 0xFFFF])) + good[6:]
         elif r < 0.93:
             b = b"X" + good[1:]
         elif r < 0.96:
-            b = mk_resp(1, rand_ts(rng), req_id, rand_ts(rng), 1, rng.choice([b"\xff", b"ab\xc3", b"\xed\xa0\x80"]), b"w", 1)
+            b = mk_resp(1, rand_ts(rng), 0, rand_ts(rng), 1, rng.choice([b"\xff", b"ab\xc3", b"\xed\xa0\x80"]), b"w", 1)
+            b = b[:22] + REQ_ID_MARK + b[30:]
         else:
             b = bytes(rng.randrange(256) for _ in range(rng.choice([0, 5, 174])))
         if _never_kill(b):
@@ -1054,55 +1295,66 @@ def gen_discover(rng):
             "responders": responders}
 
 
-def shrink_session(im, ctx, dgrams, _unused=None):
-    """Drop datagrams while the oracle still fails."""
-    def bad(ds):
-        outs = impl_session(im, ctx, ds)
-        return bool(oracle_session(ctx, ds, outs) or oracle_alone(im, ctx, ds, outs))
+def shrink_session(im, ctx, bursts):
+    """One datagram per burst if the failure survives that, then drop datagrams while the oracle still fails."""
+    def bad(bs):
+        outs, info = impl_session(im, ctx, bs)
+        return bool(oracle_session(ctx, bs, outs, info) or oracle_alone(im, ctx, bs, outs))
+    single = [[d] for b in bursts for d in b]
+    if single and bad(single):
+        bursts = single
+    else:
+        return ctx, bursts
     i = 0
-    while i < len(dgrams) and len(dgrams) > 1:
-        t = dgrams[:i] + dgrams[i + 1:]
+    while i < len(bursts) and len(bursts) > 1:
+        t = bursts[:i] + bursts[i + 1:]
         if bad(t):
-            dgrams = t
+            bursts = t
         else:
             i += 1
-    return ctx, dgrams
+    return ctx, bursts
 
 
-def report_session(ck, im, why, ctx, dgrams):
-    ctx, dgrams = shrink_session(im, ctx, list(dgrams))
-    outs = impl_session(im, ctx, dgrams)
-    why = oracle_session(ctx, dgrams, outs) or oracle_alone(im, ctx, dgrams, outs) or why
+def report_session(ck, im, why, ctx, bursts):
+    ctx, bursts = shrink_session(im, ctx, [list(b) for b in bursts])
+    outs, info = impl_session(im, ctx, bursts)
+    why = oracle_session(ctx, bursts, outs, info) or oracle_alone(im, ctx, bursts, outs) or why
+    flat = [d for b in bursts for d in b]
+    reqs = [parse_req(bytes(d)) for d in flat]
     ck.report("oracle:session:" + why.split("(")[0].strip()[:60], "C18 fails on the implementation: " + why,
-              {"kind": "session", "ctx": ctx, "dgrams": [None if d is None else list(d) for d in dgrams],
-               "impl_observed": [repr(o) for o in outs]})
+              {"kind": "session", "ctx": ctx, "bursts": jbursts(bursts),
+               "filters_of_the_requests": [[r["wf"].decode("latin-1"), r["cf"].decode("latin-1")] for r in reqs if r],
+               "impl_observed": [repr(o) for o in outs], "responder_alive_afterwards": info["alive"]})
 
 
 def replay(rep):
     c = rep["case"]
     with Impl() as im:
         if c["kind"] == "session":
-            dg = [None if d is None else bytes(d) for d in c["dgrams"]]
-            if not all(d is None or _never_kill(d) for d in dg):
+            bursts = [[bytes(d) for d in b] for b in c["bursts"]]
+            if not all(_never_kill(d) for b in bursts for d in b):
                 print("refusing to replay a kill request")
                 return 2
-            outs = impl_session(im, c["ctx"], dg)
-            for d, o in zip(dg, outs):
-                print("datagram", None if d is None else d.hex(), "->", o[0], o[1].hex() if o[0] == "send" else o[1:])
-            why = oracle_session(c["ctx"], dg, outs) or oracle_alone(im, c["ctx"], dg, outs)
+            outs, info = impl_session(im, c["ctx"], bursts)
+            print("context", c["ctx"])
+            for d, o in zip([d for b in bursts for d in b], outs):
+                rq = parse_req(d)
+                print("datagram", d.hex() if len(d) < 200 else d[:200].hex() + "...(%d bytes)" % len(d),
+                      ("= request with filters (%r, %r)" % (rq["wf"], rq["cf"])) if rq else "(not a well-formed request)",
+                      "->", o[0], o[1].hex() if o[0] == "send" else o[1:])
+            print("responder alive afterwards:", info["alive"], info["why_dead"] or "")
+            why = oracle_session(c["ctx"], bursts, outs, info) or oracle_alone(im, c["ctx"], bursts, outs)
         elif c["kind"] == "unpack":
             b = bytes(c["bytes"])
-            o = impl_unpack(b)
+            o = impl_unpack(im, b)
             print("unpack ->", o)
             why = oracle_unpack(b, o)
         elif c["kind"] == "discover":
-            k = dict(c["case"])
-            k["replies"] = [(bytes(b), tuple(a)) for b, a in k["replies"]]
-            k["responders"] = [tuple(r) for r in k["responders"]]
+            k = ucase(c["case"])
             sent, res, replies, ok_sock = impl_discover(im, **k)
             print("request sent:", None if sent is None else sent[0].hex())
             print("result:", res)
-            why = oracle_discover(k["my_name"], k["req_id"], sent, res, replies, k["wf"], k["cf"], k["cfg_wg"])
+            why = oracle_discover(k, sent, res, replies)[0]
         elif c["kind"] == "glob":
             print("fnmatchcase(%r, %r) = %r" % (c["s"], c["pat"], fnmatch.fnmatchcase(c["s"], c["pat"])))
             why = None
